@@ -722,6 +722,15 @@ func (g *genCtx) genStep(c *Case, i int, wide bool) {
 					s.Enabled = nil
 				}
 			}
+			if s.Enabled != nil && s.Enabled.K == "lit" && s.Enabled.Lit.T == "bool" && rapid.Bool().Draw(t, lbl+".enabled.spelling?") {
+				// the bool schema accepts these spellings (case-insensitively) for a literal
+				words := []string{"no", "N", "off", "fAlSe", "disable", "DISABLED", "0"}
+				if s.Enabled.Lit.B {
+					words = []string{"yes", "Y", "on", "TRUE", "enable", "Enabled", "1"}
+				}
+				s.Enabled = &Val{K: "rawscalar", Disc: rapid.SampledFrom(words).Draw(t, lbl+".enabled.word")}
+				g.label("field:enabled-literal-alternative-spelling")
+			}
 			if s.Enabled != nil {
 				g.label("field:enabled")
 			}
